@@ -87,3 +87,20 @@ def pround (x : Float) : Int :=
 def pshow (x : Float) : String := s!"f{x.toBits.toNat}"
 
 end Pymeeus.PF
+
+namespace Pymeeus.PF
+/-! Transcendental functions: Lean's `Float` calls the same glibc libm as CPython's `math`. -/
+def pi : Float := 3.141592653589793
+@[inline] def psin (x : Float) : Float := Float.sin x
+@[inline] def pcos (x : Float) : Float := Float.cos x
+@[inline] def ptan (x : Float) : Float := Float.tan x
+@[inline] def patan (x : Float) : Float := Float.atan x
+@[inline] def patan2 (y x : Float) : Float := Float.atan2 y x
+@[inline] def pasin (x : Float) : Float := Float.asin x
+@[inline] def pacos (x : Float) : Float := Float.acos x
+@[inline] def psqrt (x : Float) : Float := Float.sqrt x
+/-- `math.radians(x)` = `x * (pi / 180)` (CPython's `degToRad`). -/
+@[inline] def pradians (x : Float) : Float := x * (3.141592653589793 / 180.0)
+/-- `math.degrees(x)` = `x * (180 / pi)` (CPython's `radToDeg`). -/
+@[inline] def pdegrees (x : Float) : Float := x * (180.0 / 3.141592653589793)
+end Pymeeus.PF
